@@ -1281,3 +1281,16 @@ Proof.
     inversion H; subst. exists x2. apply getth_nth in Hx. destruct Hx as [Hx _].
     unfold putth; cbn [ths]. split; [eapply nth_error_upd_eq; eauto|]. eapply new_attempt_st; eauto.
 Qed.
+
+(* C32, "the latest picker" is the latest one of the channel's CURRENT LB policy: a picker
+   published through a balancer wrapper that was closed by idle entry changes nothing (no
+   thread moves, no Pick call is made on it); publishing through the current wrapper is
+   updatePicker, and idle entry is reset (every pick is back to waiting for a new picker) *)
+Theorem closed_policy_publish_noop : forall s o, o <> 0 -> step s [11; o] = (s, []).
+Proof.
+  intros s o Ho. unfold step, decode. destruct (Z.eqb_spec o 0); [contradiction|reflexivity].
+Qed.
+Theorem current_policy_publish_is_update : forall s, step s [11; 0] = dstep s DUpdate.
+Proof. reflexivity. Qed.
+Theorem enter_idle_is_reset : forall s, step s [12] = dstep s DReset.
+Proof. reflexivity. Qed.
